@@ -1,0 +1,29 @@
+//go:build verif
+
+package compiler
+
+// Machine-checked contract for the number of `finally` blocks a break/continue runs
+// (see /verif/DESIGN.md, C14).  This file contains no declarations: it only carries
+// specification comments that the elkvc verification-condition generator reads.
+
+/*@
+// A break or continue leaves every scope from the innermost one down to its target: the nearest
+// enclosing loop when it has no label, the scope carrying the label otherwise.  It must run the
+// `finally` block of exactly the do-finally scopes among those (the target included, as the loop
+// scan does), innermost first; the VM is told how many.  One too many runs an outer `finally`
+// early and again at its real exit; one too few skips one.
+spec fn isFin(c *BytecodeCompiler, j int) int = ite(elem(c.scopes, j).typ == doFinallyBytecodeScopeType, 1, 0)
+spec fn isTarget(c *BytecodeCompiler, label string, j int) bool = ite(label == "", elem(c.scopes, j).typ == loopBytecodeScopeType, elem(c.scopes, j).label == label)
+// finally-scopes among scopes j, j-1, ..., down to (and including) the first target
+spec rec fn finDown(c *BytecodeCompiler, label string, j int) int = ite(j < 0, 0, isFin(c, j) + ite(isTarget(c, label, j), 0, finDown(c, label, j - 1)))
+
+func (*BytecodeCompiler).countFinallyInLoop
+  props C14
+  requires c != nil && (forall k int :: 0 <= k && k < len(c.scopes) ==> elem(c.scopes, k) != nil)
+  assigns nothing
+  ensures ret == finDown(c, label, len(c.scopes) - 1)
+  loop 1
+    invariant 0 <= finallyCount && finallyCount <= range_idx
+    invariant finallyCount + finDown(c, label, len(c.scopes) - 1 - range_idx) == finDown(c, label, len(c.scopes) - 1)
+    decreases len(c.scopes) - range_idx
+@*/
